@@ -719,6 +719,46 @@ func (p *Program) addDotted(o Options) {
 		p.retarget(f, d, name, td)
 	}
 	p.add(f, &Def{Kind: KStruct, Name: p.name("S"), Fields: []*FieldDef{{ID: 1, Name: "dotted1", Req: ReqOptional, Type: &TypeRef{Ref: &Ref{f.Index, name}}}}})
+	// a local service whose dotted name reads like a service of the include: `extends inc.Name`
+	// written in f designates the local one
+	if !o.NoServices && simrt.Flip("dotted.service", 0.5) {
+		var svcs []*Def
+		for _, d := range inc.Defs {
+			if d.Kind == KService && !strings.Contains(d.Name, ".") {
+				svcs = append(svcs, d)
+			}
+		}
+		sname := inc.Base + "." + p.name("LocSvc")
+		if len(svcs) > 0 && simrt.Flip("dotted.service-shadow", 0.6) {
+			sname = inc.Base + "." + svcs[ch("dotted.service-shadowed", len(svcs))].Name
+		}
+		local := p.add(f, &Def{Kind: KService, Name: sname, Funcs: []*Func{{Name: fmt.Sprintf("fn%d_loc", p.seq)}}})
+		for _, d := range f.Defs {
+			if d.Kind == KService && d.Parent != nil && d.ParentVia == 0 && d.Parent.File != f.Index && p.Files[d.Parent.File].Base+"."+d.Parent.Name == sname {
+				d.Parent = &Ref{local.File, local.Name}
+			}
+		}
+		// ... also when the name is written in another file with f as first qualifier (`f.inc.Name`)
+		for _, g := range p.Files {
+			for _, d := range g.Defs {
+				if d.Kind == KService && d.Parent != nil && d.ParentVia-1 == f.Index && p.Files[d.Parent.File].Base+"."+d.Parent.Name == sname {
+					d.Parent, d.ParentVia = &Ref{local.File, local.Name}, 0
+				}
+			}
+		}
+		p.add(f, &Def{Kind: KService, Name: p.name("Svc"), Parent: &Ref{local.File, local.Name}, Funcs: []*Func{{Name: fmt.Sprintf("fn%d_child", p.seq)}}})
+	}
+	// a constant whose dotted name reads like an item of a local enum: `Ed.IT` written in f
+	// designates the constant
+	if o.Consts && simrt.Flip("dotted.constant", 0.5) {
+		e := p.add(f, &Def{Kind: KEnum, Name: p.name("Ed")})
+		for i := 0; i < 2; i++ {
+			e.Items = append(e.Items, EnumItem{Name: fmt.Sprintf("%s_D%d", strings.ToUpper(e.Name), i), Value: i})
+		}
+		c := p.add(f, &Def{Kind: KConst, Name: e.Name + "." + e.Items[ch("dotted.item", 2)].Name, Type: &TypeRef{Base: "i32"}, Value: &ConstVal{Kind: CInt, Int: int64(70 + ch("dotted.value", 9))}})
+		p.add(f, &Def{Kind: KConst, Name: p.name("Cz"), Type: &TypeRef{Base: "i32"}, Value: &ConstVal{Kind: CRef, Ref: &Ref{c.File, c.Name}}})
+		p.add(f, &Def{Kind: KStruct, Name: p.name("S"), Fields: []*FieldDef{{ID: 1, Name: "dz", Req: ReqOptional, Type: &TypeRef{Base: "i32"}, Default: &ConstVal{Kind: CRef, Ref: &Ref{c.File, c.Name}}}}})
+	}
 }
 
 func (p *Program) retarget(f *File, d *Def, text string, to *Def) {
